@@ -23,6 +23,15 @@ def grid(x, n=N, tol=1e-6):
 
 
 _META_CODES = {}
+_LAT_CODES = {}
+
+
+def lat_code(t):
+    """The cell of a trajectory as one integer (constant cell: the 3 x 3 matrix to nine decimals)."""
+    m = np.asarray(t.lattice, dtype=float)
+    key = (bool(t.constant_lattice), m.shape, tuple(np.round(m.ravel(), 9).tolist()))
+    return _LAT_CODES.setdefault(key, len(_LAT_CODES))
+
 
 
 def meta_code(md):
@@ -50,7 +59,7 @@ def project(t):
     ok = k != OFFGRID
     k = np.where(ok, np.mod(k, N), OFFGRID)
     sp = [SP_NAMES.index(s.symbol) for s in t.species]
-    return {'pos': k.tolist(), 'sp': sp, 'dt': int(round(t.time_step * 1e15)), 'meta': meta_code(t.metadata),
+    return {'pos': k.tolist(), 'sp': sp, 'dt': int(round(t.time_step * 1e15)), 'meta': meta_code(t.metadata), 'lat': lat_code(t),
             'dead': False}
 
 
@@ -97,6 +106,11 @@ class Recorder:
         mk = Species if rng.random() < 0.5 else Element
         dt, temp = int(rng.integers(1, 4)), int(rng.integers(100, 900))
         objs = [mk(SP_NAMES[s]) for s in sp]
+        if rng.random() < 0.3:
+            # decorated species (oxidation states): str(Species('Li', 1)) is 'Li+', its element symbol is still 'Li' -- species are named
+            # by their element symbol
+            OX = {'Li': 1, 'Na': 1, 'O': -2, 'S': -2, 'Si': 4, 'N': -3}
+            objs = [Species(SP_NAMES[s], OX[SP_NAMES[s]]) for s in sp]
         if like is not None:                      # same species objects and time step: can be appended to `like`
             objs = list(like.species)
             dt = int(round(like.time_step / 1e-15))
@@ -105,7 +119,7 @@ class Recorder:
         self.objs.append(t)
         self.driftref[len(self.objs) - 1] = None
         self.small[len(self.objs) - 1] = True
-        self.log('Construct', c=c.tolist(), sp=sp, dt=dt, meta=temp)
+        self.log('Construct', c=c.tolist(), sp=sp, dt=dt, meta=temp, lat=lat_code(t))
         return len(self.objs) - 1
 
     def construct_faces(self, T, A):
@@ -124,7 +138,7 @@ class Recorder:
         self.objs.append(t)
         self.driftref[len(self.objs) - 1] = None
         self.small[len(self.objs) - 1] = True
-        self.log('Construct', c=(k * LC).tolist(), sp=sp, dt=1, meta=300, faces=True)
+        self.log('Construct', c=(k * LC).tolist(), sp=sp, dt=1, meta=300, faces=True, lat=lat_code(t))
         return len(self.objs) - 1
 
     def construct_disp(self, T, A, max_step=3):
@@ -142,7 +156,7 @@ class Recorder:
         self.objs.append(t)
         self.driftref[len(self.objs) - 1] = None
         self.small[len(self.objs) - 1] = True
-        self.log('ConstructDisp', base=base.tolist(), d=d.tolist(), sp=sp, dt=dt, meta=temp)
+        self.log('ConstructDisp', base=base.tolist(), d=d.tolist(), sp=sp, dt=dt, meta=temp, lat=lat_code(t))
         return len(self.objs) - 1
 
     # ---- queries with checked return values
